@@ -19,6 +19,21 @@ Theorem C36_crash_safe :
       d path = Some old \/ d path = Some new.
 Proof. exact fixed_crash_safe. Qed.
 
+(* Target kinds.  A name of the model stands for a directory entry and [d n] for the content read
+   through it, whatever the entry is: a regular file, a symbolic link to a regular file, or one of
+   several hard links.  For a symlinked or hard-linked message file the property demands the same as
+   for a regular one: the path afterwards holds the complete old or the complete new content.  The
+   repaired rewriteFile never writes through [path] (it only renames the temp entry over it) and, as
+   stated here, leaves every entry other than path and tmp exactly as it was at every crash point:
+   the file a symbolic link pointed at and the other hard links keep the original content. *)
+Theorem C36_frame :
+  forall mid, atomic_fs mid ->
+  forall (path tmp : name) (old new : content) (d0 : dir),
+    tmp <> path -> d0 path = Some old ->
+    forall d, crash_state mid (ops_fixed path tmp new) d0 d ->
+    forall n, n <> path -> n <> tmp -> d n = d0 n.
+Proof. exact fixed_frame. Qed.
+
 (* the same in the form of the design document: every prefix of the operation list *)
 Theorem C36_prefix_safe :
   forall (path tmp : name) (old new : content), tmp <> path ->
@@ -80,6 +95,13 @@ Proof.
   apply (cs_during mid_posix _ _ 2%nat (Write 1 ex_new)); [reflexivity|].
   right. right. exists 1, ex_new, 3%nat. split; reflexivity.
 Qed.
+
+(* a symlinked target: entry 0 reads "z=1\na=2\n" through the link, entry 4 is the file it points at *)
+Definition ex_d0_link : dir := dir_of [(0, [122;61;49;10;97;61;50;10]); (3, [120]); (4, [122;61;49;10;97;61;50;10])].
+Example C36_frame_nonvacuous :
+  map (fun k => run (firstn k (ops_fixed 0 1 ex_new)) ex_d0_link 4) (seq 0 8) = repeat (ex_d0_link 4) 8 /\
+  run (ops_fixed 0 1 ex_new) ex_d0_link 0 = Some ex_new /\ ex_d0_link 4 <> None.
+Proof. repeat split; try reflexivity. discriminate. Qed.
 
 Example C36_prefix_safe_nonvacuous :
   map (fun k => run (firstn k (ops_fixed 0 1 ex_new)) ex_d0 0) (seq 0 8)
